@@ -105,7 +105,8 @@ static KEYWORDS: [&str; 74] = [
     "unknown",
 ];
 pub(crate) fn ident(id: &str) -> RcDoc<'_> {
-    if KEYWORDS.contains(&id) {
+    // A keyword followed by underscores is renamed as well: `class` and `class_` must stay distinct.
+    if KEYWORDS.contains(&id.trim_end_matches('_')) {
         str(id).append("_")
     } else {
         str(id)
